@@ -109,12 +109,14 @@ pub fn run_c16(a: &Args) {
             }
             ctx::eval(1);
             let kind = if directed { "directed" } else { "undirected" };
-            match guard("fast_gnp_random_graph", || random::fast_gnp_random_graph(10, *p, directed, Some(i as u64))) {
+          for n in [10, 0, 1, 2] {
+            match guard("fast_gnp_random_graph", || random::fast_gnp_random_graph(n, *p, directed, Some(i as u64))) {
                 Ok(Err(e)) if matches!(e.kind, ErrorKind::InvalidArgument) => ctx::count("gnp:invalid-p-rejected"),
                 Ok(Err(e)) => ctx::violation(&format!("C16|fast_gnp_random_graph|invalid-p-wrong-error:{}|{}", err_name(&e.kind), kind), "p outside (0,1) rejected with the wrong error", json!({"p": format!("{}", p)})),
                 Ok(Ok(_)) => ctx::violation(&format!("C16|fast_gnp_random_graph|invalid-p-accepted|{}", kind), "p outside (0,1) was not rejected with InvalidArgument", json!({"p": format!("{}", p)})),
                 Err(c) => ctx::violation(&format!("C16|fast_gnp_random_graph|{}|{}", c.class(), kind), "fast_gnp_random_graph panicked on an invalid p", json!({"p": format!("{}", p), "caught": c.json()})),
             }
+          }
         }
     }
     // ---- G(n,p): structure for every seed, mean edge count over S seeds
@@ -346,6 +348,20 @@ fn c17_results(case_kind: u64, rng: &mut Rng, idx: u64) -> Vec<(&'static str, St
                     }
                 }
                 add("dijkstra::all_pairs", format!("{:?}", m));
+            }
+            if case.n() > 0 {
+                let t = g.get_all_nodes()[case.n() / 2].name.clone();
+                if let Ok(Ok(ap)) = guard("dijkstra::all_pairs", || dijkstra::all_pairs(&g, weighted, Some(t.clone()), None, false, true)) {
+                    let mut m: BTreeMap<(String, String), (u64, Vec<Vec<String>>)> = BTreeMap::new();
+                    for (s, inner) in ap {
+                        for (tt, info) in inner {
+                            let mut p = info.paths.clone();
+                            p.sort();
+                            m.insert((s.clone(), tt), (info.distance.to_bits(), p));
+                        }
+                    }
+                    add("dijkstra::all_pairs(target)", format!("{:?}", m));
+                }
             }
             if g.specs.directed {
                 if let Ok(Ok(c)) = guard("strongly_connected_components", || components::strongly_connected_components(&g)) {
